@@ -264,7 +264,9 @@ func runC11(p *an.Prog, r *an.Run, tier string) {
 				if o.Kind != opRead || !o.inSpace("node") || o.Key == nil {
 					continue
 				}
-				dk := p.Derives(2, o.Key)
+				// through key helpers (nodeKey(id)) only: a general helper call stays opaque here, or a cached copy of the
+				// set handed back by a helper would pass for the set itself
+				dk := p.Derives(0, keyOperand(p, o.Key, 0))
 				if len(np.Params) > 1 && dk.HasParam(np.Params[1]) {
 					continue // the node's own record
 				}
@@ -608,4 +610,45 @@ func isStringy(t *types.Tuple) bool {
 		}
 	}
 	return false
+}
+
+// keyOperand: the id a badger key value is built from when it comes out of a key helper — a repo function returning
+// []byte or string whose call has exactly one non-constant argument (nodeKey(id), prefixedKey("vip:node:", id)).
+func keyOperand(p *an.Prog, v ssa.Value, depth int) ssa.Value {
+	if depth > 3 {
+		return v
+	}
+	switch x := v.(type) {
+	case *ssa.Convert:
+		return keyOperand(p, x.X, depth)
+	case *ssa.ChangeType:
+		return keyOperand(p, x.X, depth)
+	case *ssa.Call:
+		callee := x.Call.StaticCallee()
+		if callee == nil || !p.InRepo(callee) || callee.Signature.Results().Len() != 1 {
+			return v
+		}
+		switch t := callee.Signature.Results().At(0).Type().Underlying().(type) {
+		case *types.Slice:
+			if b, ok := t.Elem().Underlying().(*types.Basic); !ok || b.Kind() != types.Byte {
+				return v
+			}
+		case *types.Basic:
+			if t.Info()&types.IsString == 0 {
+				return v
+			}
+		default:
+			return v
+		}
+		var nonConst []ssa.Value
+		for _, a := range x.Call.Args {
+			if _, isConst := a.(*ssa.Const); !isConst {
+				nonConst = append(nonConst, a)
+			}
+		}
+		if len(nonConst) == 1 {
+			return keyOperand(p, nonConst[0], depth+1)
+		}
+	}
+	return v
 }
